@@ -160,7 +160,7 @@ def single_case(draw):
     n = len(obs)
     cfg = draw(U.method_config(p))
     form = draw(st.sampled_from(['single', 'list1', 'single', 'nodesc', 'single', 'list1-nodesc', 'single']))
-    meas, kind = draw(U.data_matrix(n, p, cfg['method']))
+    meas, kind = draw(U.data_matrix(n, p, cfg['method'], positive=cfg['prior'][0] == 0))
     if cfg['method'] == 'correlation':
         groups = [[i] for i in range(n)] if 'nodesc' in form else U.groups_of(obs)
         meas = U.fix_flat_patterns(meas, groups)
@@ -310,7 +310,7 @@ def list_case(draw):
             perm = draw(gen.permutation(len(base[0])))
             obs = [base[0][i] for i in perm]
             oid = [base[1][i] for i in perm]
-        meas, vkind = draw(U.data_matrix(len(obs), p, cfg['method']))
+        meas, vkind = draw(U.data_matrix(len(obs), p, cfg['method'], positive=cfg['prior'][0] == 0))
         if cfg['method'] == 'correlation':
             meas = U.fix_flat_patterns(
                 meas, U.groups_of(obs) if with_desc else [[i] for i in range(len(obs))])
@@ -439,7 +439,7 @@ def movie_case(draw):
     frames = []
     kind = None
     for _ in range(n_t):
-        m, kind = draw(U.data_matrix(n, p, cfg['method'], kind=kind))
+        m, kind = draw(U.data_matrix(n, p, cfg['method'], kind=kind, positive=cfg['prior'][0] == 0))
         if cfg['method'] == 'correlation':
             m = U.fix_flat_patterns(m, groups)
         frames.append(m)
